@@ -3,11 +3,17 @@
 
   Proved here, for the encoder model tied byte for byte to the code: the JSON escaper is safe for ALL byte
   strings (well-formed string body, no control byte), every valid UTF-8 string decodes back to itself,
-  and a whole record is one line. That the nested structure is a valid JSON object decoding to the
-  logged values is decided per generated record by the encoding/json oracle — see DESIGN.md.
+  a whole record is one line, and the object structure reads back: a member reader (strings with
+  their escapes, nested brackets and braces, split at the commas and colons of depth 0) finds in the
+  record's line exactly one member per logged field, in the order written, each under its own key
+  literal, a group again an object of exactly its members — at any depth (`json_record_reads_back`,
+  `json_group_reads_back`). Key literals and string values then decode by (1'). What remains with the
+  encoding/json oracle: that Go's decoder agrees with this reader (compared on every generated line,
+  `Q jmem` probes) and the numeric / time value texts.
 -/
 import Logg.Lemmas.EncoderClean
 import Logg.Lemmas.JsonRoundTrip
+import Logg.Lemmas.EncoderJson
 
 namespace Logg.Props.C04
 open Logg Logg.Lemmas
@@ -70,6 +76,50 @@ theorem json_values (isPrint : Nat → Bool) (pfx : Bytes) (fuel : Nat) :
   · intro n; cases fuel <;> simp [encVal, jsonQuoted, EncCfg.json]
   · intro t; cases fuel <;> simp [encVal, jsonQuoted, EncCfg.json]
   · intro items; exact ⟨encAttrs { fmt := .json, isPrint := isPrint } fuel pfx true (prepAttrs items), by simp [encVal, EncCfg.json]⟩
+
+/-- (5) **The record reads back.** For every JSON record (any message, name, severity, attribute list
+    with groups nested to any depth, any key bytes, caller on or off) the line is `object ++ LF`, and the
+    member reader finds in `object` exactly: `"time"`, `"logger"` (if named), `"level"`, `"msg"`, one
+    member per attribute (after de-duplication, in key order) whose key literal is the escaped key and
+    whose value text is the encoder's rendering of the value, then `"caller"` — nothing more, nothing
+    less. No key or value can close a string or an object early, add a member or a second record.
+    Assumed (decidable): the texts the standard library renders and the encoder writes raw between
+    quotes (timestamp, floats, complex numbers, times) contain no quote or backslash. -/
+theorem json_record_reads_back (isPrint : Nat → Bool) (p : Presentation) (depth : Nat) (r : Record) (out : Bytes)
+    (hnb : (r.lvl == Lv.always && isBlank r.msg) = false)
+    (hts : inqB r.ts = true) (hattrs : ∀ a ∈ r.attrs, attrOKJ depth a = true)
+    (h : encodeRecord .json isPrint p depth r = some out) :
+    let c : EncCfg := { fmt := .json, isPrint := isPrint }
+    ∃ object, out = object ++ [10] ∧ jsonMembers object = some (jsonFields c (p.reg.name r.lvl) depth r) := by
+  intro c
+  unfold encodeRecord at h
+  rw [hnb] at h
+  simp only [Bool.false_eq_true, ↓reduceIte, Option.some.injEq] at h
+  exact ⟨_, h.symm, plainBody_members c ⟨rfl⟩ (p.reg.name r.lvl) depth r hts hattrs⟩
+
+/-- (5') A group value is itself an object whose members are exactly the group's attributes (last
+    occurrence of a key, ascending key order), each value text again the encoder's rendering — so (5)
+    applies at every level of nesting. -/
+theorem json_group_reads_back (isPrint : Nat → Bool) (fuel : Nat) (pfx : Bytes) (items : List Attr)
+    (hok : okJ (fuel + 1) (.group items) = true) :
+    let c : EncCfg := { fmt := .json, isPrint := isPrint }
+    jsonMembers (encVal c (fuel + 1) pfx (.group items)) = some (memsOf c fuel (prepAttrs items)) :=
+  group_members _ ⟨rfl⟩ fuel pfx items hok
+
+/-- the message member is there, and its text decodes to the message (valid UTF-8) -/
+theorem json_msg_member (isPrint : Nat → Bool) (levelName : Bytes) (depth : Nat) (r : Record) (hu : isValidUtf8 r.msg = true) :
+    let c : EncCfg := { fmt := .json, isPrint := isPrint }
+    (jsonQuote kMsg, jsonQuote r.msg) ∈ jsonFields c levelName depth r ∧ jsonUnquote (jsonQuote r.msg) = some r.msg := by
+  intro c
+  have hq : c.quote r.msg = jsonQuote r.msg := (⟨rfl⟩ : JsonCfg c).quote _
+  refine ⟨?_, jsonUnquote_jsonQuote _ hu⟩
+  simp only [jsonFields, headMems, List.mem_append, List.mem_cons, hq]
+  left; left; right; right; right; left; trivial
+
+-- non-vacuity: the reader on a line with a forged member inside a string, a nested object and an array
+example : jsonMembers [123, 34, 97, 34, 58, 34, 120, 92, 34, 44, 34, 98, 34, 58, 49, 34, 44, 34, 103, 34, 58, 123, 34, 107, 34, 58, 91, 49, 44, 50, 93, 125, 125] =
+    some [([34, 97, 34], [34, 120, 92, 34, 44, 34, 98, 34, 58, 49, 34]), ([34, 103, 34], [123, 34, 107, 34, 58, 91, 49, 44, 50, 93, 125])] := by
+  decide
 
 -- non-vacuity: BEL, VT, an invalid byte and U+2028 inside a string
 example : jsonQuote [7, 11, 255, 0xE2, 0x80, 0xA8] =
